@@ -127,17 +127,21 @@ void get_reg_str(char *opd_str, char *reg) {
       reg = NULL;
       break;
     }
-    if (i > 0 && opd_str[i] == 'x' && opd_str[i - 1] == '0')
+    // start of a hexadecimal number (not the tail of a register name)
+    if (j == 0 && i > 0 && opd_str[i] == 'x' && opd_str[i - 1] == '0')
       break;
     if (j > 0 &&
-        (IN_RANGE(opd_str[i], 'a', 'z') || IN_RANGE(opd_str[i], '0', '9')))
+        (IN_RANGE(opd_str[i], 'a', 'z') || IN_RANGE(opd_str[i], '0', '9'))) {
+      // longer than any register name: make the lookup fail
+      if (j > 4) {
+        reg[0] = '?';
+        break;
+      }
       reg[j++] = opd_str[i];
-    else if (j > 0)
+    } else if (j > 0)
       break;
     if (j < 1 && IN_RANGE(opd_str[i], 'a', 'z'))
       reg[j++] = opd_str[i];
-    if (j > 4)
-      break;
   }
 }
 
@@ -172,6 +176,9 @@ static int copy_index_reg(int j, const char *mem, char reg[]) {
   while (((IN_RANGE(mem[j], 'a', 'z')) || (IN_RANGE(mem[j], '0', '9'))) &&
          k < MAX_REG_STR_LEN)
     reg[k++] = mem[j++];
+  // longer than any register name: make the lookup fail
+  if ((IN_RANGE(mem[j], 'a', 'z')) || (IN_RANGE(mem[j], '0', '9')))
+    reg[0] = '?';
   return j;
 }
 
